@@ -24,6 +24,7 @@ import Glom.Model.C10Env
   OpExprX: OpExpr with the additional operand {"use":i}   (the object bound by the i-th def step)
   Step:  {"def":OpExprX} | {"eval":i,"target":V[,"bare":true]}
   case:  {"spec":Spec | "ops":OpExpr, "target":V, "impl":Obs, "impl_bare":Obs|null}
+           (+ optional "copy_used":"copy"|"deepcopy"|"pickle": the spec object used is that copy)
          | {"spec":Spec | "ops":OpExpr, "targets":[V…], "impl_seq":[Obs…]}   -- one spec object, consecutive calls
          | {"prog":[Step…], "impl_steps":[null | Obs …]}   -- a program over spec objects; one entry per executed
                                                           -- statement (null: a def that succeeded; it ends with
@@ -259,10 +260,23 @@ def opsOutside : OpExpr → Bool
      | .ok sa => (specMro sa).isEmpty
      | _ => false)
 
-def modelObs (s : Spec) (t : V) : Obs :=
+/-- `[[class, base]…]`: the user classes the case declares -/
+def worldOfJson (j : Json) : Except String (List (String × String)) := do
+  match j.getObjVal? "world" with
+  | .ok (.arr a) => a.toList.mapM (fun e => match e with
+      | .arr #[.str k, .str b] => pure (k, b)
+      | _ => throw s!"bad class declaration {e.compress}")
+  | _ => pure []
+
+/-- the spec object that is used: the one built, or — `how` = `"copy"` / `"deepcopy"` / `"pickle"` —
+    a copy of it, as the extracted marker table says it comes out -/
+def usedSpec (how : String) (s : Spec) : Spec :=
+  if how == "none" then s else copySpec Generated.identityMarkers how s
+
+def modelObs (env : Env) (how : String) (s : Spec) (t : V) : Obs :=
   match ctorErr s with
   | some e => .ctor e.cls
-  | none => observe genEnv (eval genEnv s t)
+  | none => observe env (eval env (usedSpec how s) t)
 
 /-- what is judged: a constructor-built spec or an operator expression -/
 inductive Subject where
@@ -277,14 +291,16 @@ structure Judgement where
   tag : String
 
 /-- model and checker for one (subject, target, observation[, bare observation]) -/
-def judge (sub : Subject) (target : V) (implObs : Obs) (bare : Option Obs) : Judgement :=
-  let ct := genEnv.cls
+def judge (env : Env) (how : String) (sub : Subject) (target : V) (implObs : Obs) (bare : Option Obs) :
+    Judgement :=
+  let ct := env.cls
+  let tagHow := if how == "none" then "" else s!"{how}-"
   match sub with
   | .ops e =>
-    let built := build genEnv.boolOps true e
+    let built := build env.boolOps true e
     let mObs := match built with
       | .error x => Obs.ctor x.cls
-      | .ok s => modelObs s target
+      | .ok s => modelObs env how s target
     { agree := obsAgree mObs implObs && (match bare with | some b => obsAgree mObs b | none => true)
       holds := checkOps ct e target implObs &&
         (match bare with | some b => checkOps ct e target b | none => true)
@@ -292,9 +308,9 @@ def judge (sub : Subject) (target : V) (implObs : Obs) (bare : Option Obs) : Jud
       model := mObs
       tag := match build expectedBoolOps false e with
         | .error x => s!"ops:ctor-{x.cls}"
-        | .ok s => s!"ops-{specHead s}:{verdictTag (denote ct s target).1}" }
+        | .ok s => s!"{tagHow}ops-{specHead s}:{verdictTag (denote ct s target).1}" }
   | .spec s =>
-    let mObs := modelObs s target
+    let mObs := modelObs env how s target
     { agree := obsAgree mObs implObs && (match bare with | some b => obsAgree mObs b | none => true)
       holds := checkC10 ct s target implObs &&
         (match bare with | some b => checkC10 ct s target b | none => true)
@@ -302,7 +318,7 @@ def judge (sub : Subject) (target : V) (implObs : Obs) (bare : Option Obs) : Jud
       model := mObs
       tag := match ctorErr s with
         | some e => s!"{specHead s}:ctor-{e.cls}"
-        | none => s!"{specHead s}:{verdictTag (denote ct s target).1}" }
+        | none => s!"{tagHow}{specHead s}:{verdictTag (denote ct s target).1}" }
 
 def stepObsOfJson (j : Json) : Except String StepObs :=
   match j with
@@ -363,6 +379,11 @@ def run (j : Json) : Except String Json := do
     if let .ok oj := j.getObjVal? "ops" then
       if oj != Json.null then return Subject.ops (← opsOfJson oj)
     return Subject.spec (← specOfJson (← j.getObjVal? "spec")) : Except String Subject)
+  -- the spec object that is used is a copy of the one that was built: the MODEL runs the copy as
+  -- the marker table says it comes out, the PROPERTY is judged against the spec as written
+  let how : String := match j.getObjValAs? String "copy_used" with | .ok h => h | .error _ => "none"
+  -- the class table of this case: the declared user classes on top of the generated rows
+  let env := genEnv.withCls (worldRows genEnv.cls (← worldOfJson j))
   if let .ops e := sub then
     if hasTOperand e then
       return Json.mkObj [("skip", true), ("why", "T expression as an operand of & | ~ (recorded by TType: C02)")]
@@ -377,11 +398,11 @@ def run (j : Json) : Except String Json := do
       -- the constructor failed: one observation
       match obss, targets with
       | [o], t :: _ =>
-        let r := judge sub t o none
+        let r := judge env how sub t o none
         return Json.mkObj [("agree", r.agree), ("holds", r.holds), ("model", obsToJson r.model),
           ("branch", Json.str ("seq-" ++ r.tag)), ("wf", WF genEnv), ("model_holds", r.modelHolds)]
       | _, _ => throw "impl_seq does not match targets"
-    let rs := (targets.zip obss).map (fun p => judge sub p.1 p.2 none)
+    let rs := (targets.zip obss).map (fun p => judge env how sub p.1 p.2 none)
     let firstBad := (rs.zipIdx.find? (fun p => !p.1.holds)).map (·.2)
     return Json.mkObj [("agree", rs.all (·.agree)), ("holds", rs.all (·.holds)),
       ("model", Json.arr (rs.map (fun r => obsToJson r.model)).toArray),
@@ -391,7 +412,7 @@ def run (j : Json) : Except String Json := do
   let target ← vOfJson (← j.getObjVal? "target")
   let implObs ← obsOfJson (← j.getObjVal? "impl")
   let bare ← optField j "impl_bare" obsOfJson
-  let r := judge sub target implObs bare
+  let r := judge env how sub target implObs bare
   return Json.mkObj [("agree", r.agree), ("holds", r.holds), ("model", obsToJson r.model),
     ("branch", r.tag), ("wf", WF genEnv), ("model_holds", r.modelHolds)]
 
